@@ -1787,50 +1787,52 @@ class NodeRequire:
         if not modulename:
             modulename = name
         environment.pushModuleStack(moduleidentifier, self.pos)
+        try:
 
-        # lookup or read module
-        moduleEnv = None
-        if moduleidentifier in modules:
-            moduleEnv = modules[moduleidentifier]
-        else:
-            moduleEnv = environment.getBase().newEnv()
-            try:
-                data = pkgutil.get_data(
-                    __name__,
-                    "modules/" + modulefile.lower()
-                )
-            except FileNotFoundError:
-                data = None
-            if data:
-                modulesrc = data.decode("utf-8")
+            # lookup or read module
+            moduleEnv = None
+            if moduleidentifier in modules:
+                moduleEnv = modules[moduleidentifier]
             else:
-                filename = os.path.basename(modulefile)
-                modulepath = os.path.expanduser("~/.ckl/modules")
-                modulesrc = None
-                filepath = os.path.join(modulepath, filename)
-                if os.path.exists(filepath):
-                    with open(filepath, encoding="utf-8") as infile:
-                        modulesrc = infile.read()
-                elif environment.isDefined("checkerlang_module_path"):
-                    for modulepath in environment.get(
-                            "checkerlang_module_path",
-                            self.pos
-                    ).value:
-                        filepath = os.path.join(modulepath.value, filename)
-                        if os.path.exists(filepath):
-                            with open(filepath, encoding="utf-8") as infile:
-                                modulesrc = infile.read()
-                                break
-                if modulesrc is None:
-                    raise CklRuntimeError(
-                        ValueString("ERROR"),
-                        f"Module {filename[:-4]} not found",
-                        self.pos)
-            import ckl.parser
-            node = ckl.parser.parse_script(modulesrc, "mod:"+modulefile[0:-4])
-            node.evaluate(moduleEnv)
-            modules[moduleidentifier] = moduleEnv
-        environment.popModuleStack()
+                moduleEnv = environment.getBase().newEnv()
+                try:
+                    data = pkgutil.get_data(
+                        __name__,
+                        "modules/" + modulefile.lower()
+                    )
+                except FileNotFoundError:
+                    data = None
+                if data:
+                    modulesrc = data.decode("utf-8")
+                else:
+                    filename = os.path.basename(modulefile)
+                    modulepath = os.path.expanduser("~/.ckl/modules")
+                    modulesrc = None
+                    filepath = os.path.join(modulepath, filename)
+                    if os.path.exists(filepath):
+                        with open(filepath, encoding="utf-8") as infile:
+                            modulesrc = infile.read()
+                    elif environment.isDefined("checkerlang_module_path"):
+                        for modulepath in environment.get(
+                                "checkerlang_module_path",
+                                self.pos
+                        ).value:
+                            filepath = os.path.join(modulepath.value, filename)
+                            if os.path.exists(filepath):
+                                with open(filepath, encoding="utf-8") as infile:
+                                    modulesrc = infile.read()
+                                    break
+                    if modulesrc is None:
+                        raise CklRuntimeError(
+                            ValueString("ERROR"),
+                            f"Module {filename[:-4]} not found",
+                            self.pos)
+                import ckl.parser
+                node = ckl.parser.parse_script(modulesrc, "mod:"+modulefile[0:-4])
+                node.evaluate(moduleEnv)
+                modules[moduleidentifier] = moduleEnv
+        finally:
+            environment.popModuleStack()
 
         # bind module or contents of module
         if self.unqualified:
